@@ -67,7 +67,19 @@ def main():
         rc, out = sh(["git", "status", "--porcelain"], cwd=REPO)
         if out.strip():
             print("WARNING: /repo not clean after undo:\n" + out)
-    json.dump({"tier": tier, "checks": results, "at": time.strftime("%Y-%m-%dT%H:%M:%S")}, open(os.path.join(d, "result.json"), "w"), indent=1)
+    # merge with earlier runs of other checks against the same change (each entry keeps its own time)
+    now = time.strftime("%Y-%m-%dT%H:%M:%S")
+    for r in results.values():
+        r["at"] = now
+    rp = os.path.join(d, "result.json")
+    old = {}
+    if os.path.exists(rp):
+        try:
+            old = json.load(open(rp)).get("checks", {})
+        except Exception:
+            old = {}
+    old.update(results)
+    json.dump({"tier": tier, "checks": old, "at": now}, open(rp, "w"), indent=1)
     fired = [p for p, r in results.items() if r["fired"]]
     print("fired:", ",".join(fired) or "none")
 
